@@ -356,6 +356,27 @@ class History(object):
     # ------------------------------------------------------------------ settle and judge
     def settle(self, S, s_alive):
         """Barriers: sender first (if it can), then everybody else who reads.  Returns (s_alive, inboxes)."""
+        if getattr(self, "long_pending", False):
+            # a message longer than the socket buffers stays in the recipient's bus-side queue (and its descriptors keep
+            # counting against the sender's max_incoming_unix_fds) until the recipient reads: let the readers read first
+            self.long_pending = False
+
+            def long_frames():
+                return sum(1 for c in self.clients.values() for r in c.log if len(r.raw) > 200000)
+            have = self.long_seen
+            deadline = time.time() + client.WATCHDOG
+            quiet = 0
+            while time.time() < deadline and quiet < 25:
+                before = sum(len(c.log) + len(c.buf) for c in self.clients.values())
+                for c in list(self.clients.values()):
+                    mcn = self.mc(c)
+                    if not (mcn.stalled or mcn.partial is not None or c.closed):
+                        c.pump(timeout=0.02)
+                if long_frames() > have:
+                    break
+                # (a refused long message never arrives: give up after half a second without any byte arriving anywhere)
+                quiet = quiet + 1 if sum(len(c.log) + len(c.buf) for c in self.clients.values()) == before else 0
+            self.long_seen = long_frames()
         if s_alive and self.mc(S).partial is None and not self.mc(S).stalled:
             try:
                 S.barrier()
@@ -737,6 +758,14 @@ class History(object):
                 spec.placement = "first"     # keep timing-dependent outcomes away from connections that cannot barrier
         elif pl < 0.25 and not (short and a):
             spec.placement = "chunked"
+        if a and kind != "bcast" and spec.dest_class == "negotiated" and spec.placement == "first" and rel == "eq" \
+                and not self.not_reading() and self.timeout_ms is None and self.max_size >= (1 << 27) and rng.random() < 0.2:
+            # a header longer than the socket buffers (only the object path has no length limit): the bus has to write it
+            # to the recipient in several pieces, and the descriptors travel with the first piece only
+            spec.path = b"/" + b"p" * rng.choice([230000, 420000, 900000])
+            self.long_pending = True
+            self.long_seen = sum(1 for c in self.clients.values() for r in c.log if len(r.raw) > 200000)
+            self.part.count("fd-messages-with-header-longer-than-socket-buffer")
         spec.fds = self.new_fds(a)
         cls = self.transmit(S, spec)
         self.after_surplus(S, cls)
